@@ -440,7 +440,7 @@ def run(ck):
 
             cdir = common.VERIF / "corpus" / "C07"
             for f in sorted(cdir.glob("*.json")) if cdir.is_dir() else []:
-                add(json.loads(f.read_text())["cfg"], "corpus")
+                add(json.loads(f.read_text())["case"]["cfg"], "corpus")
             for s in offending:
                 for c in configs_for_site(s):
                     add(c, "reaches-offending-site")
